@@ -240,7 +240,6 @@ def check_C04(ctx):
     rep.rule("H3", "type-hash heads of different type constructors differ")
     rep.rule("H4", "&[T] and SerIter<T,_> delegate both hashes to Vec<T>, SerType = Vec<T>")
     rep.rule("G", "check_header compares both hashes with != against the same recipe the writer stored, returns the specific error, before any value is read")
-    rep.rule("GOLDEN", "hash recipes of the built-in impls = spec/format_v1_1.json")
     u, w, ts, exp = ctx.triples("default", CORPUS)
     recs = rules_hash.collect(u, rep)
     rules_hash.rule_H2(u, recs, ts, rep)
@@ -268,10 +267,9 @@ def check_C04(ctx):
             rep.findings.append(f)
     rep.obligations += sub.obligations
     rep.discharged += sub.discharged
-    golden_compare(ctx, ("type_hash", "align_hash"))
     return ("Hash recipes (ordered feeds into the hasher) of every TypeHash/AlignHash impl extracted by abstract interpretation; conformance of "
-            "derived recipes to the item definition, dependence on every parameter, distinct heads, documented aliases, golden recipes of the "
-            "built-ins, and the header comparison of both hashes. Different recipes give different hashes up to an xxh3-64 collision (not decided).")
+            "derived recipes to the item definition, dependence on every parameter, distinct heads, documented aliases, "
+            "and the header comparison of both hashes. Different recipes give different hashes up to an xxh3-64 collision (not decided).")
 
 
 def check_C06(ctx):
